@@ -5,21 +5,29 @@
 package main
 
 import (
+	"context"
 	"fmt"
 	"strings"
 	"time"
 
 	"github.com/TarsCloud/TarsGo/tars"
+	"github.com/TarsCloud/TarsGo/tars/protocol/res/adminf"
+	"github.com/TarsCloud/TarsGo/tars/transport"
+	"github.com/TarsCloud/TarsGo/tars/util/current"
+	"github.com/TarsCloud/TarsGo/tars/util/gtime"
 	"github.com/TarsCloud/TarsGo/tars/util/rogger"
 	"verif/common"
 	"verif/e1"
+	"verif/tnet"
 	"verif/vm"
+	vtime "verif/vm/vtime"
 )
 
 type recWriter struct {
 	recs    []string
 	prefix  bool
 	slow    bool // the writer takes a while: a scheduling point between being called and having written
+	slowMs  int  // ... and this much virtual time
 	inside  int
 	overlap bool
 }
@@ -31,6 +39,9 @@ func (w *recWriter) Write(v []byte) {
 			w.overlap = true
 		}
 		vm.Yield()
+		if w.slowMs > 0 {
+			vm.Sleep(int64(w.slowMs) * int64(time.Millisecond))
+		}
 		w.inside--
 	}
 	w.recs = append(w.recs, string(v))
@@ -56,11 +67,30 @@ type cfg struct {
 	Big        bool // the first entry of every logging goroutine is 5000 bytes long (formatted path only)
 	Panics     int  // >0: instead of calling FlushLogger, this many goroutines log one entry each and panic under tars.CheckPanic
 	Gap        int  // ms between the panics
+	SlowMs     int  // with Slow: every Write takes this long on the virtual clock; the cached one-second clock (gtime) runs
+	StartMs    int  // the scenario starts this far into a second of the virtual clock
+	ViaInvoke  bool // with Panics: the panic happens in a servant implementation called through the real Protocol.Invoke
+}
+
+// pimp: servant implementation (AdminF) whose Notify runs a scenario-supplied function
+type pimp struct{ f func(string) }
+
+func (pimp) Shutdown(ctx context.Context) error { return nil }
+func (p pimp) Notify(ctx context.Context, command string) (string, error) {
+	p.f(command)
+	return "done", nil
 }
 
 func (c cfg) name() string {
 	if c.Panics > 0 {
-		return fmt.Sprintf("CheckPanic panics=%d gap=%dms G=%d E=%d pre=%d raw=%v cap=%d", c.Panics, c.Gap, c.G, c.E, c.Pre, c.Raw, c.QueueCap)
+		via := ""
+		if c.ViaInvoke {
+			via = " in a servant implementation under Protocol.Invoke"
+		}
+		return fmt.Sprintf("CheckPanic panics=%d gap=%dms G=%d E=%d pre=%d raw=%v cap=%d%s", c.Panics, c.Gap, c.G, c.E, c.Pre, c.Raw, c.QueueCap, via)
+	}
+	if c.SlowMs > 0 {
+		return fmt.Sprintf("rogger G=%d E=%d pre=%d raw=%v cap=%d writer takes %dms, start %dms into a second, cached clock running", c.G, c.E, c.Pre, c.Raw, c.QueueCap, c.SlowMs, c.StartMs)
 	}
 	return fmt.Sprintf("rogger G=%d E=%d pre=%d late=%d raw=%v two=%v cap=%d slow=%v big=%v", c.G, c.E, c.Pre, c.Late, c.Raw, c.TwoWriters, c.QueueCap, c.Slow, c.Big)
 }
@@ -80,12 +110,22 @@ func scenario(c cfg) *vm.Scenario {
 	var logged []stamped
 	sc := &vm.Scenario{Name: c.name()}
 	sc.Reset = func() {
-		w1, w2 = &recWriter{prefix: !c.Raw, slow: c.Slow}, &recWriter{prefix: !c.Raw, slow: c.Slow}
+		w1, w2 = &recWriter{prefix: !c.Raw, slow: c.Slow, slowMs: c.SlowMs}, &recWriter{prefix: !c.Raw, slow: c.Slow, slowMs: c.SlowMs}
 		required = nil
 		snapshot = nil
 		seq, firstPanic, logged = 0, 0, nil
 	}
 	sc.Main = func() {
+		var proto *tars.Protocol
+		if c.ViaInvoke {
+			tars.VerifNewApp()
+		}
+		if c.SlowMs > 0 {
+			if d := int64(c.StartMs)*1e6 - vm.Now()%1e9; d > 0 {
+				vm.Sleep(d)
+			}
+			gtime.VerifStart()
+		}
 		rogger.VerifResetCap(c.QueueCap)
 		rogger.SetLevel(rogger.DEBUG)
 		lg := rogger.GetLogger("a")
@@ -137,11 +177,30 @@ func scenario(c cfg) *vm.Scenario {
 			}
 			for p := 0; p < c.Panics; p++ {
 				p := p
+				body := func() {}
 				vm.GoNamed("panicker", func() {
+					if c.ViaInvoke {
+						if p > 0 && c.Gap > 0 {
+							vm.Sleep(int64(p*c.Gap) * int64(time.Millisecond))
+						}
+						_, proto = tars.VerifNewServer(adminf.NewAdminF(), pimp{func(string) { body() }}, true, &transport.TarsServerConf{Proto: "tcp", Address: "127.0.0.1:9300"})
+						ctx := current.ContextWithTarsCurrent(context.Background())
+						current.SetClientIPWithContext(ctx, "127.0.0.1")
+						current.SetClientPortWithContext(ctx, "40001")
+						current.SetRecvPkgTsFromContext(ctx, vtime.Now().UnixNano()/1e6)
+						w := &tnet.W{}
+						w.Str(1, "x")
+						proto.Invoke(ctx, (&tnet.Request{Version: 1, ID: int32(p + 1), Servant: "App.Srv.AdminObj", Func: "notify", Buffer: w.B,
+							Timeout: 60000, Context: map[string]string{}, Status: map[string]string{}}).Encode())
+						return
+					}
 					defer tars.CheckPanic()
 					if p > 0 && c.Gap > 0 {
 						vm.Sleep(int64(p*c.Gap) * int64(time.Millisecond))
 					}
+					body()
+				})
+				body = func() {
 					m := fmt.Sprintf("<p%d-e0>", p)
 					emit(lg, m)
 					seq++
@@ -152,7 +211,7 @@ func scenario(c cfg) *vm.Scenario {
 					}
 					vm.Log("panic %d", p)
 					panic(fmt.Sprint("boom ", p))
-				})
+				}
 			}
 			vm.Sleep(int64(10 * time.Second)) // the process must have exited long before
 			return
@@ -177,7 +236,12 @@ func scenario(c cfg) *vm.Scenario {
 		case vm.StDeadlock:
 			msgs = append(msgs, "deadlock: "+strings.Join(r.Blocked, ","))
 		case vm.StPanic:
-			msgs = append(msgs, "panic: "+r.PanicMsg)
+			if c.Panics > 0 && strings.Contains(r.PanicMsg, "boom") {
+				// the panic left its goroutine: the runtime ends the process at once, nothing is flushed
+				msgs = append(msgs, "panic-not-caught-by-CheckPanic-process-dies-without-flush")
+			} else {
+				msgs = append(msgs, "panic: "+r.PanicMsg)
+			}
 		case vm.StStepLimit:
 			msgs = append(msgs, "livelock-or-step-limit")
 		}
@@ -309,6 +373,15 @@ func main() {
 			add(cfg{G: 2, E: 2, Big: true}, -1, b)
 			add(cfg{G: 1, E: 3, Big: true, Slow: true}, -1, b)
 		}
+		// a writer that takes 300 ms per entry while the process-wide cached clock (one-second resolution) ticks:
+		// the flush straddles a second boundary
+		for _, st := range []int{0, 300, 500, 800} {
+			add(cfg{Pre: 3, Raw: raw, Slow: true, SlowMs: 300, StartMs: st}, 1, b)
+		}
+		add(cfg{G: 1, E: 2, Pre: 1, Raw: raw, Slow: true, SlowMs: 300, StartMs: 500}, 1, b)
+		// the panic happens in a servant implementation, reached through the real Protocol.Invoke
+		add(cfg{Panics: 1, Pre: 2, Raw: raw, ViaInvoke: true}, -1, b)
+		add(cfg{Panics: 2, Pre: 1, Gap: 5, Raw: raw, ViaInvoke: true}, 2, b)
 		// panic-triggered exit: CheckPanic dumps, flushes, exits; one panic, and two overlapping ones
 		add(cfg{Panics: 1, Pre: 2, Raw: raw}, -1, b)
 		add(cfg{Panics: 1, G: 1, E: 2, Raw: raw}, -1, b)
